@@ -272,7 +272,24 @@ func (g *Gen) genContributions(sc *Scenario, heads []*Node) {
 			for sub := uint64(0); sub < 4; sub++ {
 				subm := members[subSize*int(sub) : subSize*int(sub+1)]
 				done := 0
+				// members holding a seat in an EARLIER subcommittee as well come first: an aggregator for a subcommittee
+				// that is not the first one it sits in
+				order := make([]int, 0, len(subm))
 				for p := range subm {
+					if sub > 0 && memberOf(members[:subSize*int(sub)], subm[p]) {
+						order = append(order, p)
+					}
+				}
+				multi := len(order)
+				for p := range subm {
+					if !(sub > 0 && memberOf(members[:subSize*int(sub)], subm[p])) {
+						order = append(order, p)
+					}
+				}
+				for oi, p := range order {
+					if oi < multi && selects(subm[p], sub) {
+						g.Count["x:contrib-honest-aggregator-with-earlier-seat"]++
+					}
 					if selects(subm[p], sub) {
 						if done < 2 {
 							o := mkBase(sub, p, (int(sub)+done+hi)%3)
